@@ -1,6 +1,6 @@
 (** Correspondence for C12: the encoders and decoders of the wire model against
     MarshalJSON / UnmarshalJSON on structurally generated protocol values. *)
-From LOV Require Export Wire.Decode Wire.Encode Wire.SchemaCodec Wire.Operation Corr.Common.
+From LOV Require Export Wire.Decode Wire.Encode Wire.SchemaCodec Wire.Operation Wire.Messages Corr.Common.
 From Coq Require Import List.
 Import ListNotations.
 
@@ -11,7 +11,10 @@ Inductive target := RValue | RSet | RMap | RUuid | RRow | RCond | RMut | RBase |
     [c_uuids] the strings that are well-formed uuids. *)
 Record vcase := mkVCase { c_t : target; c_v : gval; c_enc : gval; c_dec : gval; c_uuids : list sym }.
 (** an operation: the value, the implementation's encoding, what the implementation decodes from it *)
-Inductive case := CVal (c : vcase) | COp (w : wop) (enc : gval) (dec : wop) (uuids : list sym).
+(** a message of Wire/Messages.v: the value, the implementation's encoding, what the implementation decodes from it *)
+Inductive wmsg := MRu (t : wtables wru) | MRu2 (t : wtables wru2) | MRes (r : wresult) | MMon (m : wmonreq) | MSince (s : wsince).
+Inductive case := CVal (c : vcase) | COp (w : wop) (enc : gval) (dec : wop) (uuids : list sym)
+                | CMsg (m : wmsg) (enc : gval) (dec : wmsg) (uuids : list sym).
 Definition mkCase t v e d u := CVal (mkVCase t v e d u).
 
 Definition FUEL := 64%nat.
@@ -78,6 +81,56 @@ Definition check_val (c : vcase) : nat :=
           | _ => false end);
       (3, is_schema (c_t c) || eqv (c_dec c) (c_v c)) ]%nat.
 
+(** messages: tables and uuids arrive sorted by name on both sides (Go maps have no order) *)
+Definition prow_eqv := oeqb row_eqv.
+Definition ru_eqv (a b : wru) : bool := prow_eqv (ru_new a) (ru_new b) && prow_eqv (ru_old a) (ru_old b).
+Definition ru2_eqv (a b : wru2) : bool :=
+  prow_eqv (r2_initial a) (r2_initial b) && prow_eqv (r2_insert a) (r2_insert b) &&
+  prow_eqv (r2_modify a) (r2_modify b) && prow_eqv (r2_delete a) (r2_delete b).
+Definition tables_eqv {A} (e : A -> A -> bool) (a b : wtables A) : bool :=
+  list_eqv (fun x y => N.eqb x.1 y.1 && list_eqv (fun p q => N.eqb p.1 q.1 && oeqb e p.2 q.2) x.2 y.2) a b.
+Definition result_eqv (a b : wresult) : bool :=
+  Z.eqb (rs_count a) (rs_count b) && N.eqb (rs_error a) (rs_error b) && N.eqb (rs_details a) (rs_details b) &&
+  N.eqb (rs_uuid a) (rs_uuid b) && list_eqv row_eqv (rs_rows a) (rs_rows b).
+Definition select_eqv (a b : wselect) : bool :=
+  oeqb Bool.eqb (ms_initial a) (ms_initial b) && oeqb Bool.eqb (ms_insert a) (ms_insert b) &&
+  oeqb Bool.eqb (ms_delete a) (ms_delete b) && oeqb Bool.eqb (ms_modify a) (ms_modify b).
+Definition monreq_eqv (a b : wmonreq) : bool :=
+  oeqb (list_eqv N.eqb) (mr_columns a) (mr_columns b) && list_eqv triple_eqv (mr_where a) (mr_where b) &&
+  oeqb select_eqv (mr_select a) (mr_select b).
+Definition msg_eqv (a b : wmsg) : bool :=
+  match a, b with
+  | MRu x, MRu y => tables_eqv ru_eqv x y
+  | MRu2 x, MRu2 y => tables_eqv ru2_eqv x y
+  | MRes x, MRes y => result_eqv x y
+  | MMon x, MMon y => monreq_eqv x y
+  | MSince x, MSince y => Bool.eqb (sn_found x) (sn_found y) && N.eqb (sn_last x) (sn_last y) &&
+                          tables_eqv ru2_eqv (sn_updates x) (sn_updates y)
+  | _, _ => false
+  end.
+Definition msg_enc (vu : sym -> bool) (m : wmsg) : gval :=
+  match m with
+  | MRu t => enc_tables (enc_ru vu) t
+  | MRu2 t => enc_tables (enc_ru2 vu) t
+  | MRes r => enc_result vu r
+  | MMon r => enc_monreq vu r
+  | MSince s => enc_since vu s
+  end.
+Definition msg_dec (m : wmsg) (j : gval) : res wmsg :=
+  match m with
+  | MRu _ => t <- dec_tables (dec_ru FUEL) j ;; Ok (MRu t)
+  | MRu2 _ => t <- dec_tables (dec_ru2 FUEL) j ;; Ok (MRu2 t)
+  | MRes _ => r <- dec_result FUEL j ;; Ok (MRes r)
+  | MMon _ => r <- dec_monreq FUEL j ;; Ok (MMon r)
+  | MSince _ => s <- dec_since FUEL j ;; Ok (MSince s)
+  end.
+Definition check_msg (m : wmsg) (enc : gval) (dec : wmsg) (uuids : list sym) : nat :=
+  let vu s := existsb (N.eqb s) uuids in
+  first_fail
+    [ (21, eqv (msg_enc vu m) enc);
+      (22, match msg_dec m enc with Ok d => msg_eqv d dec | _ => false end);
+      (23, msg_eqv dec m) ]%nat.
+
 Definition check (c : case) : nat :=
-  match c with CVal v => check_val v | COp w e d u => check_op w e d u end.
+  match c with CVal v => check_val v | COp w e d u => check_op w e d u | CMsg m e d u => check_msg m e d u end.
 Definition run := run_cases check.
